@@ -23,7 +23,15 @@ const DOC_LETTERS: [&str; 3] = ["a", "b", "c"];
 #[derive(Serialize, Deserialize, Clone, Debug, PartialEq)]
 enum Ev {
     Open { doc: usize, version: i64, tag: String, text: String },
-    Change { doc: usize, version: i64, tag: String, text: String },
+    Change {
+        doc: usize,
+        version: i64,
+        tag: String,
+        text: String,
+        /// full-text changes that precede `text` inside the same notification (the last change is the new state)
+        #[serde(default)]
+        earlier: Vec<String>,
+    },
     Close { doc: usize },
     Req { doc: usize, kind: String, line: u64, ch: u64 },
 }
@@ -39,8 +47,8 @@ impl Ev {
             Ev::Open { doc, version, text, .. } => {
                 format!("{}:open v{}[{}imp,{}err,{}B]", DOC_LETTERS[*doc], version, count_imports(text), count_errs(text), text.len())
             }
-            Ev::Change { doc, version, text, .. } => {
-                format!("{}:change v{}[{}imp,{}err,{}B]", DOC_LETTERS[*doc], version, count_imports(text), count_errs(text), text.len())
+            Ev::Change { doc, version, text, earlier, .. } => {
+                format!("{}:change v{}[{}imp,{}err,{}B{}]", DOC_LETTERS[*doc], version, count_imports(text), count_errs(text), text.len(), if earlier.is_empty() { String::new() } else { format!(",+{} earlier change(s) in the same notification", earlier.len()) })
             }
             Ev::Close { doc } => format!("{}:close", DOC_LETTERS[*doc]),
             Ev::Req { doc, kind, .. } => format!("{}:{}", DOC_LETTERS[*doc], kind),
@@ -210,6 +218,7 @@ fn gen_scenario(seed: u64) -> (Scenario, Strategy) {
         rich_decls: r.chance(1, 2),
     };
     let undo_permille = *r.pick(&[0u64, 0, 150, 300]);
+    let multi_change = r.chance(1, 3);
     let docs: Vec<String> = ["main.incn", "other.incn", "side.incn"][..ndocs].iter().map(|s| s.to_string()).collect();
     let main_imports_other = ndocs >= 2 && r.chance(1, 2);
     let mut files: Vec<(String, String)> = Vec::new();
@@ -255,7 +264,9 @@ fn gen_scenario(seed: u64) -> (Scenario, Strategy) {
                 if i == 0 {
                     evs.push(Ev::Open { doc: d, version: v, tag, text });
                 } else {
-                    evs.push(Ev::Change { doc: d, version: v, tag, text });
+                    // sometimes the notification carries the previous text as a first change and the new text as the last
+                    let earlier = if multi_change && r.chance(1, 5) { vec![session_texts[session_texts.len() - 2].1.clone()] } else { Vec::new() };
+                    evs.push(Ev::Change { doc: d, version: v, tag, text, earlier });
                 }
                 if r.chance(1, 12) {
                     let kind = *r.pick(&["hover", "completion", "definition"]);
@@ -309,7 +320,7 @@ fn final_state(scn: &Scenario) -> Vec<DocFinal> {
     let mut st = vec![DocFinal::NeverOpened; scn.docs.len()];
     for e in &scn.events {
         match e {
-            Ev::Open { doc, version, tag, text } | Ev::Change { doc, version, tag, text } => {
+            Ev::Open { doc, version, tag, text } | Ev::Change { doc, version, tag, text, .. } => {
                 st[*doc] = DocFinal::Open { version: *version, tag: tag.clone(), text: text.clone() };
             }
             Ev::Close { doc } => st[*doc] = DocFinal::Closed,
@@ -325,9 +336,9 @@ fn normalise(events: &[Ev], ndocs: usize) -> Vec<Ev> {
     let mut out = Vec::new();
     for e in events {
         match e.clone() {
-            Ev::Open { doc, version, tag, text } | Ev::Change { doc, version, tag, text } => {
+            Ev::Open { doc, version, tag, text } | Ev::Change { doc, version, tag, text, .. } => {
                 if open[doc] {
-                    out.push(Ev::Change { doc, version, tag, text });
+                    out.push(Ev::Change { doc, version, tag, text, earlier: Vec::new() });
                 } else {
                     open[doc] = true;
                     out.push(Ev::Open { doc, version, tag, text });
@@ -492,6 +503,11 @@ fn write_project(dir: &Path, scn: &Scenario) {
 fn ev_message(dir: &Path, scn: &Scenario, e: &Ev, req_id: i64) -> Value {
     match e {
         Ev::Open { doc, version, text, .. } => lsp::did_open(&uri_of(dir, &scn.docs[*doc]), *version, text),
+        Ev::Change { doc, version, text, earlier, .. } if !earlier.is_empty() => {
+            let mut all: Vec<&str> = earlier.iter().map(|s| s.as_str()).collect();
+            all.push(text);
+            lsp::did_change_multi(&uri_of(dir, &scn.docs[*doc]), *version, &all)
+        }
         Ev::Change { doc, version, text, .. } => lsp::did_change(&uri_of(dir, &scn.docs[*doc]), *version, text),
         Ev::Close { doc } => lsp::did_close(&uri_of(dir, &scn.docs[*doc])),
         Ev::Req { doc, kind, line, ch } => probe_message(dir, scn, &Probe { doc: *doc, kind: kind_static(kind), line: *line, ch: *ch }, req_id),
